@@ -5,6 +5,7 @@
 -/
 import SqlDt.Model.Serde
 import SqlDt.Spec.Munch
+import SqlDt.Spec.Units
 open SqlDt
 
 namespace Drv
@@ -238,6 +239,19 @@ def specHandler (name : String) : Option (List Arg → Res) :=
         else if ¬ validUtf8 buf then .skipUtf8
         else (match Spec.munch buf with | .ok fs => .ok [.str (fieldsStr fs)] | .error e => .err e)
     | _ => .badOp
+  | "D.trunc" => some fun | [u, n] => withUnit u (fun u => recv .D n fun n => chkInt (Spec.truncDate u n)) | _ => .badOp
+  | "D.round" => some fun | [u, n] => withUnit u (fun u => recv .D n fun n => chkInt (Spec.roundDate u n)) | _ => .badOp
+  | "TS.trunc" => some fun | [u, n] => withUnit u (fun u => recv .TS n fun n => chkInt (Spec.truncTs u n)) | _ => .badOp
+  | "TS.round" => some fun | [u, n] => withUnit u (fun u => recv .TS n fun n => chkInt (Spec.roundTs u n)) | _ => .badOp
+  | "OD.trunc" => some fun | [u, n] => withUnit u (fun u => recv .OD n fun n => chkInt (Spec.truncTs u n)) | _ => .badOp
+  | "OD.round" => some fun | [u, n] => withUnit u (fun u => recv .OD n fun n => chkInt (Spec.roundTs u n)) | _ => .badOp
+  | "D.extract" => some fun | [n] => recv .D n fun n => let (y, m, d) := Spec.civil n; .ok [.int y, .int m, .int d] | _ => .badOp
+  | "D.dow" => some fun | [n] => recv .D n fun n => okInt (Spec.weekday n + 1) | _ => .badOp
+  | "D.try_from_ymd" => some fun | [y, m, d] => i32 y fun y => u32 m fun m => u32 d fun d =>
+      (if y < 1 ∨ y > 9999 then .err .DateOutOfRange else if m < 1 ∨ m > 12 then .err .InvalidMonth
+       else if d < 1 ∨ d > 31 then .err .InvalidDay else if d > Spec.dim y m then .err .InvalidDate
+       else okInt (Spec.dayNumber y m d)) | _ => .badOp
+  | "D.last_day" => some fun | [n] => recv .D n fun n => let (y, m, _) := Spec.civil n; okInt (Spec.dayNumber y m (Spec.dim y m)) | _ => .badOp
   | _ => none
 
 /-- The operation table: name → handler. -/
